@@ -266,6 +266,9 @@ def run_slice(name, tier, stats):
                             "model_bad": mb, "key": key, "sha": exportlib.tree_sha(final_cmp),
                             "rets": [s["ret"] for s in ob["steps"]], "pred_rets": c["pred_rets"],
                             "final_tree": ob["steps"][-1]["tree"], "blobs": None})
+        for r_, c in zip(results, model_cases):
+            if obs[c["hid"]].get("cut") and not r_["bad"]:
+                raise ToolError("history %s: %s, and nothing before that step deviates from the specification" % (describe_steps(c["steps"]), obs[c["hid"]]["cut"]))
         # ADJUDICATE (pass 2): confluence over histories without other failures
         good = sorted([r_ for r_ in results if not r_["bad"]], key=lambda r_: (r_["key"], r_["sha"]))
         if good:
